@@ -66,10 +66,18 @@ class XYParametricModel(ParametricModelBaseMixin, XYContainer):
 
     @x.setter
     def x(self, new_x):
+        if np.array_equal(self._data[0], new_x):
+            # same support points: the model values stay valid
+            self._clear_total_error_cache()
+            return
         # resetting 'x' -> must reset entire data array
         self._data = np.zeros((2, len(new_x)))
         self._data[0] = new_x
         self._pm_calculation_stale = True
+        # reset references of x uncertainties to the new support points (as the XYContainer.x setter does)
+        for _err_dict in self._error_dicts.values():
+            if _err_dict["axis"] == 0:
+                _err_dict["err"].reference = self._get_data_for_axis(0)
         self._clear_total_error_cache()
 
     @property
